@@ -710,6 +710,9 @@ class BaseTransform:
          [  0.   0. 120.]
          [  0.   0. 135.]]
         """
+        # n angles about one axis: scipy>=1.17 expects shape (n,1) for a single-axis sequence
+        if isinstance(seq, str) and len(seq) == 1 and np.ndim(angle) == 1:
+            angle = np.reshape(np.asarray(angle, dtype=float), (-1, 1))
         rot = R.from_euler(seq, angle, degrees=degrees)
         return self.rotate(rot, anchor=anchor, start=start)
 
